@@ -165,6 +165,7 @@ Proof.
   set (e0 := Nat.min (match e with Some x => x | None => blen b end) (blen b)).
   destruct ((e0 <? s0)%nat && interior && negb from_out)%bool; [discriminate|].
   destruct ((e0 <? s0)%nat && negb interior && negb from_out)%bool; [intros E; inversion E; split; assumption|].
+  destruct ((e0 <? s0)%nat && negb (out_mode b) && negb interior)%bool; [intros E; inversion E; split; assumption|].
   destruct ((e0 <? s0)%nat && negb (out_mode b))%bool; [discriminate|].
   destruct (interior && negb from_out && (e0 - s0 <? 2)%nat)%bool; [intros E; inversion E; subst; split; assumption|].
   cbv zeta.
